@@ -168,8 +168,8 @@ std::string replaceEscapeSequences(const std::string &source) {
                 if (i + 1 < source.size() && std::isxdigit(source[i+1]))
                     value += source[i++ + 1];
                 result += static_cast<char>(std::stoi(value, nullptr, 16));
-            } else if (source[i] == '0') {
-                std::string value = "0";
+            } else if (source[i] >= '0' && source[i] <= '7') {
+                std::string value(1, source[i]);
                 if (i + 1 < source.size() && source[i+1] >= '0' && source[i+1] <= '7')
                     value += source[i++ + 1];
                 if (i + 1 < source.size() && source[i+1] >= '0' && source[i+1] <= '7')
